@@ -15,7 +15,8 @@ class SourceIndex:
 
     def module(self, file):
         if file not in self.modules:
-            path = os.path.join(self.repo, file)
+            path = os.path.join(self.repo, file) if not file.startswith("verif:") else \
+                os.path.join(os.path.dirname(os.path.dirname(os.path.abspath(__file__))), file[6:])
             with open(path) as f:
                 src = f.read()
             self.modules[file] = ast.parse(src, filename=path)
@@ -38,7 +39,7 @@ class SourceIndex:
         return node, mod
 
     def find(self, c):
-        node, mod = self.find_in(c.file, c.qual)
+        node, mod = self.find_in(c.file, getattr(c, "source", c.qual))
         if not isinstance(node, ast.FunctionDef):
             raise ContractError(f"{c.qual} is not a function")
         return node, mod, c.file
